@@ -26,6 +26,11 @@ CLAIMS = {
         text="The real filtered walk (pruning, incremental parent results, lazy ancestors, map handling) is compared as a sequence of (path, stat) with a naive evaluation over the complete snapshot listing that uses a fresh patternmatcher per list and no pruning. Mismatches that the unpruned MatchesUsingParentResults chain model reproduces exactly are the listed known finding; everything else is a violation. Sampled, no proof.",
         note="Trusts moby/patternmatcher.MatchesOrParentMatches as the meaning of a pattern list. Map-call order on lazily emitted ancestors that return SkipDir is treated as unspecified (structural clauses only there).",
         ref="4 C10"),
+    "C01": dict(
+        technique="rapid-generated (source tree, prior destination, option) triples run through the real Send/Receive pair over a harness stream; oracle = independent lstat snapshot vs the tree model",
+        text="Tens of thousands of generated source trees and prior destinations (independent trees over a colliding name pool, or 1-5 model edits of the source; fresh, dirty and merge mode; on-disk and synthetic sources; differ metadata/none; owner-rewriting filter; stream capacities 0-64) are synchronised with the real sender and receiver; the destination is then observed with the harness's own lstat/readlink/xattr/sha256 walker and compared two-directionally with the model (path set, types, bytes, 12 mode bits, owner, link targets, device numbers, hard-link partition, ns mtimes, xattrs; merge: overlay with survivors inode-identical). Sampled, no proof.",
+        note="Privileged receiver on tmpfs; the unprivileged-receiver configuration of the quantifier is not exercised yet. Files with equal identity are given equal bytes (precondition of identity-based differencing). Error returns are counted, not judged (C04).",
+        ref="4 C01"),
 }
 
 NOT_YET = "check not built yet in this round (planned, see DESIGN.md section 9)"
